@@ -394,8 +394,19 @@ def check_twist_pairs(run, rule='R21'):
                     continue
                 n += 1
                 blk_defs = {}
-                tw = canon(fi, ra[0].value, inline=False)
-                mat = canon(fi, rb[0].value, inline=False)
+
+                def arm_value(arm, ret):
+                    # temporaries of the arm itself (arg_ = logm(T); return vex(arg_)) are put back in place
+                    from ..cfg import _subst_pure
+                    env = {}
+                    for s2 in arm:
+                        if s2 is ret:
+                            break
+                        if isinstance(s2, ast.Assign) and len(s2.targets) == 1 and isinstance(s2.targets[0], ast.Name):
+                            env[s2.targets[0].id] = _subst_pure(canon(fi, s2.value, inline=False), env)
+                    return _subst_pure(canon(fi, ret.value, inline=False), env)
+                tw = arm_value(st.body, ra[0])
+                mat = arm_value(st.orelse, rb[0])
                 # inline w = vex(S) style locals of the enclosing block
                 from .r16_tables import _enclosing_block, _Subst
                 blk = _enclosing_block(f.node, st) or []
@@ -427,6 +438,15 @@ def check_ginv(run, rule='R21'):
         if isinstance(st, ast.Assign) and isinstance(st.targets[0], ast.Name) and st.targets[0].id == 'Ginv':
             g = st
     if g is None:
+        # not named: the matrix that multiplies the translation, v = (<matrix in S and theta>) @ t
+        for st in own_walk(f.node):
+            if isinstance(st, ast.Assign) and isinstance(st.targets[0], ast.Name) and isinstance(st.value, ast.BinOp) and isinstance(st.value.op, ast.MatMult) \
+                    and isinstance(st.value.right, ast.Name) and st.value.right.id == 't' and \
+                    {'S', 'theta'} <= {y.id for y in ast.walk(st.value.left) if isinstance(y, ast.Name)}:
+                g = ast.Assign(targets=[ast.Name(id='Ginv', ctx=ast.Store())], value=st.value.left)
+                ast.copy_location(g, st)
+                g._orig = st
+    if g is None:
         run.error('R21: trlog: no definition of Ginv')
         return
     nm = Normaliser()
@@ -435,8 +455,8 @@ def check_ginv(run, rule='R21'):
         from ..cfg import _subst_pure
         from .r16_tables import _enclosing_block as _eb
         env = {}
-        for st in (_eb(f.node, g) or []):
-            if st is g:
+        for st in (_eb(f.node, getattr(g, '_orig', g)) or []):
+            if st is getattr(g, '_orig', g):
                 break
             if isinstance(st, ast.Assign) and isinstance(st.targets[0], ast.Name) and st.targets[0].id not in ('S', 'theta', 'w', 'v', 't', 'R'):
                 env[st.targets[0].id] = _subst_pure(canon(fi, st.value, inline=False), env)      # e.g. the scalar coefficient k
